@@ -1999,7 +1999,11 @@ fn collect_validator_issues_inner(
     path: &PathKey,
     out: &mut Vec<ValidationIssue>,
 ) {
-    for (field, kind) in errors.errors() {
+    // `validator` keeps fields, list items and parameters in hash maps: iterate them in a fixed
+    // order, so that the same input always produces the same report (and the same first issue).
+    let mut fields: Vec<_> = errors.errors().iter().collect();
+    fields.sort_by(|a, b| a.0.cmp(b.0));
+    for (field, kind) in fields {
         let field_path = path.clone().join(field.as_ref());
         match kind {
             ValidationErrorsKind::Field(entries) => {
@@ -2008,6 +2012,7 @@ fn collect_validator_issues_inner(
                     for (k, v) in &entry.params {
                         params.push((k.to_string(), v.to_string()));
                     }
+                    params.sort();
 
                     out.push(ValidationIssue {
                         path: field_path.clone(),
@@ -2021,7 +2026,9 @@ fn collect_validator_issues_inner(
                 collect_validator_issues_inner(inner, &field_path, out);
             }
             ValidationErrorsKind::List(list) => {
-                for (idx, inner) in list {
+                let mut items: Vec<_> = list.iter().collect();
+                items.sort_by_key(|(idx, _)| **idx);
+                for (idx, inner) in items {
                     let index_path = field_path.clone().join(*idx);
                     collect_validator_issues_inner(inner, &index_path, out);
                 }
